@@ -226,19 +226,21 @@ PROPS['C04'] = {
     'units': ['opt_ts', 'opt_kotlin', 'opt_swift', 'opt_scala', 'opt_go', 'opt_python'],
     'title': 'a generated member is optional iff the Rust field is Option<T> or has the bare serde(default) (member-writer kernel)',
     'technique': 'Verus postconditions on the member writers TypeScript::write_field, Kotlin::write_element, Scala::write_element, Go::write_field, '
-                 'Python::write_field and the stored-property statements of Swift::write_struct (lifted, T11), extracted verbatim, over a ghost text sink: every write! / writeln! / format! site is verified through a contract generated from its '
+                 'Python::write_field, the stored-property statements of Swift::write_struct and the newtype-variant payload arm of TypeScript::write_enum_variants (both lifted, T11), extracted verbatim, over a ghost text sink: every write! / writeln! / format! site is verified through a contract generated from its '
                  'literal, the optional-marker conditions stay verbatim in the verified text',
     'level_text': 'For every field (any type, any attributes as recorded in the IR, any type override, any generic parameters, every configuration): '
                   'the text the writer appends contains the member in the target\'s notation - name, optional marker, type text - where the marker is '
                   'present exactly when the Rust type is Option<T> or has_default is set (TypeScript `?`, plus `| null` exactly for Option<Option<T>>; '
                   'Kotlin ` = null` / `? = null`; Swift `?`; Scala ` = None`; Go `*` + `,omitempty` in the json tag; Python `Optional[..]` + `default=None` in '
                   'Field(..)), and the type text is the override or a '
-                  'translation of the Rust type in the sense of C05 - the marker never changes it.',
+                  'translation of the Rust type in the sense of C05 - the marker never changes it. Python members whose type text has custom (de)serialiser functions are wrapped as a '
+                  'whole in Annotated[..]: the `Optional[..]` marker stays inside, around the type text. TypeScript newtype-variant payloads: `content` + `?` exactly for Option<T>, '
+                  '` | null` exactly for Option<Option<T>>, type text unchanged.',
     'level_note': 'Kernel: the struct-member writers of all six back ends (Swift: the stored property; its initialiser parameters repeat the expression and are '
-                  'not under contract; Python members with a custom (de)serialiser wrapper are not decided). Newtype-variant payloads, aliases, and that has_default is set exactly for the bare serde(default) (syn) are NOT proved: bounded '
+                  'not under contract). Newtype-variant payloads of the five other back ends (the marker of Option<T> is part of the type text there: C05), aliases, and that has_default is set exactly for the bare serde(default) (syn) are NOT proved: bounded '
                   'stand-in opt-search only. format_type is used through the contract proved in the fmt units. Known finding carved out: Scala writes a '
                   'non-Option member with serde(default) as `T = _` (pinned by a snapshot).',
-    'design_ref': 'DESIGN.md section 10.10',
+    'design_ref': 'DESIGN.md sections 10.10 and 10.17',
     'bounded': ['optsearch', 'cli_extras'],
 }
 for _u in PROPS['C04']['units']:
